@@ -1,9 +1,9 @@
 (* C15 — After successful lowering no backend crashes (partial: Coq carries the argument that the finite witness
    enumeration covers every shape the gate can accept; absence of panics on each witness is observed by running
    the real backends). *)
-From Coq Require Import List Bool Arith.
+From Coq Require Import List Bool Arith String.
 Import ListNotations.
-From DV Require Import Gate.Model Dispatch.Model Dispatch.Proofs.
+From DV Require Import Gate.Model Dispatch.Model Dispatch.Proofs Docs.Model Docs.Proofs.
 
 (* whatever the gate accepts as an output / non-callback input / return type is at most 3 constructors deep, i.e. it is
    literally one of the enumerated witnesses (enumeration depth 3 in the thorough tier, depth 2 + pointer options in quick) *)
@@ -18,3 +18,33 @@ Print Assumptions C15_inputs_enumerated.
 Theorem C15_returns_enumerated : forall fl t, lret fl t = true -> classify t = t.
 Proof. exact accepted_returns_are_classes. Qed.
 Print Assumptions C15_returns_enumerated.
+
+(* the documentation renderer every backend calls (Docs::to_markdown, DocsUrlGenerator::gen_for_rust_link; None = panic)
+   never fails, whatever the doc text, link kinds, display styles, path lengths and base-URL settings are: in particular
+   the unreachable!() arm for Mod is unreachable. (Paths are non-empty by construction: syn parses no empty path.) *)
+Theorem C15_docs_url_total : forall g l, l_path l <> [] -> exists u, gen_url g l = Some u.
+Proof. exact gen_url_total. Qed.
+Print Assumptions C15_docs_url_total.
+
+Theorem C15_docs_markdown_total : forall g d, (forall l, In l (d_links d) -> l_path l <> []) -> exists s, to_markdown g d = Some s.
+Proof. exact to_markdown_total. Qed.
+Print Assumptions C15_docs_markdown_total.
+
+(* the statement was false of the generator as it stood before fix 06b6163 (witness: rust_link(Foo, FnInStruct)) ... *)
+Theorem C15_docs_url_unrepaired_refuted : exists g l, l_path l <> [] /\ gen_url_unrepaired g l = None.
+Proof. exact unrepaired_refuted. Qed.
+Print Assumptions C15_docs_url_unrepaired_refuted.
+
+(* ... and the repair leaves every link whose path is long enough for its kind exactly as it was *)
+Theorem C15_docs_repair_is_conservative : forall g l,
+  need (l_typ l) <= List.length (l_path l) -> gen_url_unrepaired g l = gen_url g l.
+Proof. exact repair_is_conservative. Qed.
+Print Assumptions C15_docs_repair_is_conservative.
+
+(* what a link is, on the split path crate :: modules ++ item :: members *)
+Theorem C15_docs_url_shape : forall g t disp c mods item ms pre,
+  page_prefix t = Some pre -> List.length (item :: ms) = need t ->
+  gen_url g (mkLink (c :: mods ++ item :: ms)%list t disp) =
+    Some (root g c ++ dirs (c :: mods) ++ pre ++ item ++ ".html" ++ members_part t ms)%string.
+Proof. exact gen_url_shape. Qed.
+Print Assumptions C15_docs_url_shape.
